@@ -335,7 +335,13 @@ func genRandom(e *emitter, r *hc.Rand, n int) {
 			var pl []int
 			nf := r.Intn(4)
 			for j := 0; j < nf; j++ {
-				pl = append(pl, 1+r.Intn(2))
+				if r.Chance(1, 4) {
+					// any node type may sit in an inner position (a sink or formatter that passes the event on must
+					// be followed by its successor like any other node)
+					pl = append(pl, 3+r.Intn(4))
+				} else {
+					pl = append(pl, 1+r.Intn(2))
+				}
 			}
 			return append(pl, 3+r.Intn(2), 5+r.Intn(2))
 		}
@@ -348,7 +354,17 @@ func genRandom(e *emitter, r *hc.Rand, n int) {
 				if r.Chance(1, 8) {
 					pol = 2
 				}
-				ops = append(ops, Op{K: "regpipe", Pid: 1 + r.Intn(4), Ety: 1 + r.Intn(3), IDs: randPipe(), Pol: pol})
+				ids := randPipe()
+				if r.Chance(1, 6) {
+					// a definition that is refused after validation (ill-formed shape / unregistered node): a failed
+					// (over)registration must leave what Send dispatches to unchanged
+					if r.Bool() {
+						ids = ids[:len(ids)-1]
+					} else {
+						ids[r.Intn(len(ids))] = 9
+					}
+				}
+				ops = append(ops, Op{K: "regpipe", Pid: 1 + r.Intn(4), Ety: 1 + r.Intn(3), IDs: ids, Pol: pol})
 			case x < 65:
 				ops = append(ops, Op{K: "rmpipe", Pid: 1 + r.Intn(4), Ety: 1 + r.Intn(3)})
 			case x < 72:
